@@ -359,7 +359,7 @@ func TestDepositsAndVoteRights(t *testing.T) {
 			}
 		}
 		if os.Getenv("C28_DEBUG") != "" {
-			fmt.Println("END era", era, "height", k.Height, "v2start", prof.DPoSV2Start, "effective", len(k.Arbiters.State.DposV2EffectedProducers), "need", prof.NNormal*3/2, "activeHeight", k.Arbiters.State.DPoSV2ActiveHeight, "v2producers", len(k.Arbiters.State.GetActivityV2Producers()), "dead", dead, "acc voting/regv2/updv2/stake", g.Accepted["voting"], g.Accepted["registerv2"], g.Accepted["updatev2"], g.Accepted["stake"], "rej voting", g.Rejected["voting"], g.Rejected["voting/na"], g.LastErr["voting"])
+			fmt.Println("END era", era, "height", k.Height, "v2start", prof.DPoSV2Start, "effective", len(k.Arbiters.State.DposV2EffectedProducers), "need", prof.NNormal*3/2, "activeHeight", k.Arbiters.State.DPoSV2ActiveHeight, "v2producers", len(k.Arbiters.State.GetActivityV2Producers()), "dead", dead, "acc voting/regv2/updv2/stake", g.Accepted["voting"], g.Accepted["registerv2"], g.Accepted["updatev2"], g.Accepted["stake"], "cancelexp acc/rej/na", g.Accepted["cancelexpired"], g.Rejected["cancelexpired"], g.Rejected["cancelexpired/na"], "rej voting", g.Rejected["voting"], g.Rejected["voting/na"], g.LastErr["voting"])
 			for _, p := range k.Arbiters.State.GetActivityV2Producers() {
 				fmt.Println("  V2PRODUCER until", p.Info().StakeUntil, "v2votes", p.DposV2Votes(), "rights", common.Fixed64(p.GetTotalDPoSV2VoteRights()))
 			}
